@@ -354,130 +354,146 @@ func elemOf(v ssa.Value, path string, idx ssa.Value) bool {
 	return ok && ia.Index == idx && an.Path(ia.X) == path
 }
 
+// elemAccess recognises v as "element idx of base": a load of base[idx], or
+// (reflect.Value).Index/Field(base, idx). base is described by its access path
+// (or "$name" for values that are not paths).
+func elemAccess(v ssa.Value) (base string, baseVal ssa.Value, idx ssa.Value, ok bool) {
+	switch x := v.(type) {
+	case *ssa.UnOp:
+		if ia, isIA := x.X.(*ssa.IndexAddr); isIA && x.Op == token.MUL {
+			return pathOrName(ia.X), ia.X, ia.Index, true
+		}
+	case *ssa.Call:
+		if an.IsCallTo(x, rvIndex, rvField) && len(x.Call.Args) == 2 {
+			return pathOrName(x.Call.Args[0]), x.Call.Args[0], x.Call.Args[1], true
+		}
+	}
+	return "", nil, nil, false
+}
+
+func pathOrName(v ssa.Value) string {
+	if p := an.Path(v); p != "" {
+		return p
+	}
+	return "$" + v.Name()
+}
+
+// lengthOf returns the affine length of a slice-like value: len(path), the
+// Len operand of a fresh make, reflect lengths.
+func lengthOf(v ssa.Value) an.Affine {
+	if ms, ok := v.(*ssa.MakeSlice); ok {
+		return an.Lin(ms.Len)
+	}
+	a := an.Affine{Terms: map[string]int64{}}
+	if p := an.Path(v); p != "" {
+		a.Terms["len("+p+")"] = 1
+	} else {
+		a.Terms["len($"+v.Name()+")"] = 1
+	}
+	return a
+}
+
+// loopsOf lists the generalised index loops of f with step 1.
+func loopsOf(f *ssa.Function) []*an.IndexLoop {
+	var out []*an.IndexLoop
+	for _, l := range an.Loops(f) {
+		if il := an.AsIndexLoop(l); il != nil && il.Step == 1 {
+			out = append(out, il)
+		}
+	}
+	return out
+}
+
 func c01CoversAll(r *an.Run) {
 	r.Rule("R4-every-field-and-element-compared")
-	// compile side: result of compile(v.Field(i)) / compile(v.Index(i)) stored at [i]
-	compileLoop := func(rel, name, accessor string, boundOK func(*ssa.Function) func(ssa.Value) bool) {
+	// compile side: the matcher compiled from v.<accessor>(j) is stored at dst[i], i runs over all of dst,
+	// len(dst) is the number of fields/elements of v, and i == j
+	compileLoop := func(rel, name, accessor, lenAtom string) {
 		f := fn(r, rel, name)
 		if f == nil {
 			return
 		}
-		ils := findIndexLoops(f, boundOK(f))
-		if !r.Check(len(ils) == 1, short(f)+"|loop", f.Pos(), "%s has one index loop over all fields/elements of the pattern value (found %d)", short(f), len(ils)) {
-			return
-		}
-		il := ils[0]
-		var act *ssa.Call
-		for _, c := range callsInLoop(il.Loop) {
-			call, ok := c.(*ssa.Call)
-			if !ok || len(an.CallArgs(call)) < 2 {
-				continue
-			}
-			if sc := an.StaticCallee(call); sc == nil || !strings.HasSuffix(sc.Name(), "compile") {
-				continue
-			}
-			arg := an.CallArgs(call)[1]
-			if ac, ok := arg.(*ssa.Call); ok && an.IsCallTo(ac, accessor) && len(ac.Call.Args) == 2 && isParam(ac.Call.Args[0], "v") && ac.Call.Args[1] == il.Index {
-				act = call
-			}
-		}
-		if !r.Check(act != nil, short(f)+"|compile-elem", il.If.Pos(), "the loop compiles %s(v, i) for the loop's own index i", accessor) {
-			return
-		}
-		// stored at [i]
-		stored := false
-		if refs := act.Referrers(); refs != nil {
-			for _, x := range *refs {
-				if st, ok := x.(*ssa.Store); ok {
-					if ia, ok := st.Addr.(*ssa.IndexAddr); ok && ia.Index == il.Index {
-						stored = true
+		found := false
+		for _, il := range loopsOf(f) {
+			for _, c := range callsInLoop(il.Loop) {
+				call, ok := c.(*ssa.Call)
+				if !ok || an.StaticCallee(call) == nil || !strings.HasSuffix(an.StaticCallee(call).Name(), "compile") || len(an.CallArgs(call)) < 2 {
+					continue
+				}
+				base, _, j, isElem := elemAccess(an.CallArgs(call)[1])
+				ac, isCall := an.CallArgs(call)[1].(*ssa.Call)
+				if !isElem || base != "v" || !isCall || !an.IsCallTo(ac, accessor) {
+					continue
+				}
+				// where is it stored?
+				for _, u := range *call.Referrers() {
+					st, ok := u.(*ssa.Store)
+					if !ok {
+						continue
 					}
+					ia, ok := st.Addr.(*ssa.IndexAddr)
+					if !ok {
+						continue
+					}
+					n := lengthOf(ia.X)
+					want := an.Affine{Terms: map[string]int64{lenAtom: 1}}
+					sameIdx := an.Lin(ia.Index).Sub(an.Lin(j)).IsZero()
+					covers := il.IndexMapsOnto(ia.Index, n) && n.Sub(want).IsZero()
+					msg := il.CoversAll(call, nil)
+					found = true
+					r.Check(sameIdx, short(f)+"|same-index", call.Pos(), "the matcher compiled from element j of the pattern value is stored at index j")
+					r.Check(covers && msg == "", short(f)+"|covers-all", call.Pos(), "all %s elements of the pattern value are compiled (index runs over 0..n-1 of a slice of length %s) %s", lenAtom, n.String(), msg)
+					r.Count("element loops", 1)
 				}
 			}
 		}
-		r.Check(stored, short(f)+"|store-elem", act.Pos(), "the compiled matcher for element i is stored at index i")
-		msg := il.CoversAll(act, nil)
-		r.Check(msg == "" && il.Start == 0 && il.Step == 1, short(f)+"|covers-all", act.Pos(), "all elements 0..n-1 are compiled (start %d, step %d) %s", il.Start, il.Step, msg)
-		r.Count("element loops", 1)
+		r.Check(found, short(f)+"|loop", f.Pos(), "%s compiles %s(v, i) in an index loop and stores the result at [i]", short(f), accessor)
 	}
-	numFieldOfV := func(f *ssa.Function) func(ssa.Value) bool {
-		return func(v ssa.Value) bool {
-			c, ok := v.(*ssa.Call)
-			if !ok || !c.Call.IsInvoke() || c.Call.Method.Name() != "NumField" {
-				return false
-			}
-			return callOn(c.Call.Value, rvType, func(x ssa.Value) bool { return isParam(x, "v") })
-		}
-	}
-	lenOfV := func(f *ssa.Function) func(ssa.Value) bool { return isCallOnParam(rvLen, "v") }
-	compileLoop(engine, "matcherCompiler.compileStruct", rvField, numFieldOfV)
-	compileLoop(engine, "matcherCompiler.compileSlice", rvIndex, lenOfV)
+	compileLoop(engine, "matcherCompiler.compileStruct", rvField, "NumField(Type(v))")
+	compileLoop(engine, "matcherCompiler.compileSlice", rvIndex, "Len(v)")
 
-	// match side
-	matchLoop := func(name, items, accessor string, gotIndex func(f *ssa.Function, il *an.IndexLoop, v ssa.Value) bool) {
+	// match side: matcher items[i] is applied to candidate element i (+offset), i runs over all of items
+	matchLoop := func(name, items, candBase string, offset an.Affine) {
 		f := fn(r, engine, name)
 		if f == nil {
 			return
 		}
-		ils := findIndexLoops(f, isLenOfPath(items))
-		if !r.Check(len(ils) == 1, short(f)+"|loop", f.Pos(), "%s has one index loop over all of %s (found %d)", short(f), items, len(ils)) {
-			return
-		}
-		il := ils[0]
-		var act *ssa.Call
-		for _, c := range callsInLoop(il.Loop, matcherMatch) {
-			call := c.(*ssa.Call)
-			a := an.CallArgs(call)
-			if elemOf(a[0], items, il.Index) && gotIndex(f, il, a[1]) {
-				act = call
-			}
-		}
-		if !r.Check(act != nil, short(f)+"|match-elem", il.If.Pos(), "the loop matches element i of %s against element i of the candidate (%s with the loop's own index)", items, accessor) {
-			return
-		}
-		msg := il.CoversAll(act, an.ReturnsFailure)
-		r.Check(msg == "" && il.Start == 0 && il.Step == 1, short(f)+"|covers-all", act.Pos(), "all elements of %s are matched (start %d, step %d) %s", items, il.Start, il.Step, msg)
-		r.Count("element loops", 1)
-	}
-	matchLoop("StructMatcher.Match", "m.Fields", rvField, func(f *ssa.Function, il *an.IndexLoop, v ssa.Value) bool {
-		c, ok := v.(*ssa.Call)
-		return ok && an.IsCallTo(c, rvField) && isParam(c.Call.Args[0], "got") && c.Call.Args[1] == il.Index
-	})
-	matchLoop("SliceMatcher.Match", "m.Items", rvIndex, func(f *ssa.Function, il *an.IndexLoop, v ssa.Value) bool {
-		c, ok := v.(*ssa.Call)
-		return ok && an.IsCallTo(c, rvIndex) && isParam(c.Call.Args[0], "got") && c.Call.Args[1] == il.Index
-	})
-	// matchPrefix: want[i] against got[i+idx]
-	if f := fn(r, engine, "matchPrefix"); f != nil {
-		ils := findIndexLoops(f, isLenOfPath("want"))
-		if r.Check(len(ils) == 1, short(f)+"|loop", f.Pos(), "matchPrefix has one index loop over the section's matchers (found %d)", len(ils)) {
-			il := ils[0]
-			var act *ssa.Call
+		found := false
+		for _, il := range loopsOf(f) {
 			for _, c := range callsInLoop(il.Loop, matcherMatch) {
 				call := c.(*ssa.Call)
 				a := an.CallArgs(call)
-				if !elemOf(a[0], "want", il.Index) {
+				mb, mbv, mi, ok1 := elemAccess(a[0])
+				cb, _, ci, ok2 := elemAccess(a[1])
+				if !ok1 || !ok2 || mb != items || cb != candBase {
 					continue
 				}
-				if u, ok := a[1].(*ssa.UnOp); ok {
-					if ia, ok := u.X.(*ssa.IndexAddr); ok && an.Path(ia.X) == "got" {
-						if add, ok := ia.Index.(*ssa.BinOp); ok && add.Op == token.ADD &&
-							(add.X == il.Index && isParam(add.Y, "idx") || add.Y == il.Index && isParam(add.X, "idx")) {
-							act = call
-						}
-					}
-				}
-			}
-			if r.Check(act != nil, short(f)+"|match-elem", il.If.Pos(), "matchPrefix matches want[i] against got[idx+i]") {
-				msg := il.CoversAll(act, an.ReturnsFailure)
-				r.Check(msg == "" && il.Start == 0 && il.Step == 1, short(f)+"|covers-all", act.Pos(), "all matchers of the section are applied %s", msg)
+				found = true
+				n := lengthOf(mbv)
+				agree := an.Lin(ci).Sub(an.Lin(mi)).Sub(offset).IsZero()
+				r.Check(agree, short(f)+"|same-index", call.Pos(), "matcher i of %s is applied to candidate element i%s", items, offsetText(offset))
+				msg := il.CoversAll(call, an.ReturnsFailure)
+				r.Check(il.IndexMapsOnto(mi, n) && msg == "", short(f)+"|covers-all", call.Pos(), "all matchers of %s are applied (index runs over 0..len-1) %s", items, msg)
 				r.Count("element loops", 1)
 			}
-			// length guard: want must fit
-			c01LenGuardPrefix(r, f)
 		}
+		r.Check(found, short(f)+"|loop", f.Pos(), "%s matches %s[i] against the candidate's element i in an index loop", short(f), items)
+	}
+	zero := an.Affine{Terms: map[string]int64{}}
+	matchLoop("StructMatcher.Match", "m.Fields", "got", zero)
+	matchLoop("SliceMatcher.Match", "m.Items", "got", zero)
+	matchLoop("matchPrefix", "want", "got", an.Affine{Terms: map[string]int64{"idx": 1}})
+	if f := fn(r, engine, "matchPrefix"); f != nil {
+		c01LenGuardPrefix(r, f)
 	}
 	r.Min("element loops", 5)
+}
+
+func offsetText(a an.Affine) string {
+	if a.IsZero() {
+		return ""
+	}
+	return " + " + a.String()
 }
 
 func c01LenGuardPrefix(r *an.Run, f *ssa.Function) {
@@ -887,23 +903,65 @@ func c01IgnoreSet(r *an.Run) {
 
 	// PosMatcher: validity equality of pattern and candidate
 	if pm := fn(r, engine, "PosMatcher.Match"); pm != nil {
-		idx, _ := an.VerdictIndex(pm.Signature)
 		const isValid = "(go/token.Pos).IsValid"
-		for _, ret := range an.Returns(pm) {
-			cmp, ok := ret.Results[idx].(*ssa.BinOp)
-			good := false
-			if ok && cmp.Op == token.EQL {
+		var eq *ssa.BinOp
+		for _, b := range pm.Blocks {
+			for _, in := range b.Instrs {
+				cmp, ok := in.(*ssa.BinOp)
+				if !ok || (cmp.Op != token.EQL && cmp.Op != token.NEQ) {
+					continue
+				}
 				x, xok := cmp.X.(*ssa.Call)
 				y, yok := cmp.Y.(*ssa.Call)
 				if xok && yok && an.IsCallTo(x, isValid) && an.IsCallTo(y, isValid) {
 					px, py := an.Path(x.Call.Args[0]), an.Path(y.Call.Args[0])
 					cand := func(v ssa.Value) bool { return derivesFrom(v, pm.Params[1]) }
-					good = px == "m.Pos" && cand(y.Call.Args[0]) && py != "m.Pos" || py == "m.Pos" && cand(x.Call.Args[0]) && px != "m.Pos"
+					if px == "m.Pos" && cand(y.Call.Args[0]) && py != "m.Pos" || py == "m.Pos" && cand(x.Call.Args[0]) && px != "m.Pos" {
+						eq = cmp
+					}
 				}
 			}
-			r.Check(good, short(pm)+"|validity-eq", ret.Pos(), "PosMatcher's verdict is m.Pos.IsValid() == candidate.IsValid() (this separates 'type A = B' from 'type A B', f(x...) from f(x))")
+		}
+		if r.Check(eq != nil, short(pm)+"|validity-test", pm.Pos(), "PosMatcher compares m.Pos.IsValid() with candidate.IsValid()") {
+			r.Check(verdictIsCondition(pm, eq, eq.Op == token.EQL), short(pm)+"|validity-eq", eq.Pos(), "PosMatcher's verdict is true exactly when m.Pos.IsValid() == candidate.IsValid() (this separates 'type A = B' from 'type A B', f(x...) from f(x))")
 		}
 	}
+}
+
+// verdictIsCondition: the verdict returned by f is true exactly when cond has
+// the value `when`: every return either returns cond itself (or its negation,
+// accordingly), or a constant that agrees with the branch of cond it sits
+// behind.
+func verdictIsCondition(f *ssa.Function, cond ssa.Value, when bool) bool {
+	idx, ok := an.VerdictIndex(f.Signature)
+	if !ok {
+		return false
+	}
+	brs := an.BranchesOn(f, cond)
+	okAll := true
+	n := 0
+	for _, ret := range an.Returns(f) {
+		n++
+		v := ret.Results[idx]
+		inner, pos := an.StripNot(v)
+		if inner == cond {
+			if pos != when {
+				okAll = false
+			}
+			continue
+		}
+		k, isc := an.ConstBool(v)
+		if !isc {
+			okAll = false
+			continue
+		}
+		// a constant k: the return must be reachable only when cond == (k == when)
+		need := k == when
+		if len(brs) == 0 || !unreachableWithout(ret.Block(), edgesWhen(brs, need)) {
+			okAll = false
+		}
+	}
+	return okAll && n > 0
 }
 
 // ---- R7 -------------------------------------------------------------------
@@ -1284,21 +1342,38 @@ func c01SplitPatch(r *an.Run) {
 		}
 	}
 	r.Check(len(def) == 1 && def["both"], short(f)+"|default", wphi.Pos(), "every other line goes to both versions (writer: %s)", joinSorted(def))
-	// the marker byte, and only it, is stripped: a slice Text[1:] is stored back under the cases
+	// the marker byte, and only it, is stripped: every cut of a line's text (in splitPatch or a helper it
+	// calls) is [1:], and each marker arm performs one
+	group := helperGroup(f, 2)
+	isStrip := func(in ssa.Instruction) bool {
+		sl, ok := in.(*ssa.Slice)
+		if !ok || !strings.HasSuffix(an.Path(sl.X), ".Text") {
+			return false
+		}
+		lo, isc := an.ConstInt(sl.Low)
+		return sl.Low != nil && isc && lo == 1 && sl.High == nil
+	}
 	nStrip := 0
-	for _, b := range f.Blocks {
-		for _, in := range b.Instrs {
-			if sl, ok := in.(*ssa.Slice); ok && strings.HasSuffix(an.Path(sl.X), ".Text") {
-				lo, ok := an.ConstInt(sl.Low)
-				if sl.Low != nil && ok && lo == 1 && sl.High == nil {
-					nStrip++
-				} else {
-					r.Fail(short(f)+"|strip", sl.Pos(), "a line's text is cut by something other than [1:]: more or less than the marker byte is stripped")
+	for _, g := range group {
+		for _, b := range g.Blocks {
+			for _, in := range b.Instrs {
+				if sl, ok := in.(*ssa.Slice); ok && strings.HasSuffix(an.Path(sl.X), ".Text") {
+					if isStrip(in) {
+						nStrip++
+					} else {
+						r.Fail(short(f)+"|strip", sl.Pos(), "a line's text is cut by something other than [1:]: more or less than the marker byte is stripped")
+					}
 				}
 			}
 		}
 	}
-	r.Check(nStrip == 2, short(f)+"|strip", f.Pos(), "exactly the marker byte is stripped in the '-' and the '+' arm (found %d [1:] slices)", nStrip)
+	armsStrip := 0
+	for _, c := range an.EqCases(f, isFirstByte) {
+		if _, ok := an.ConstInt(c.Key); ok && regionHas(c.Target, wphi.Block(), group, isStrip) {
+			armsStrip++
+		}
+	}
+	r.Check(nStrip >= 1 && armsStrip == 2, short(f)+"|strip", f.Pos(), "exactly the marker byte is stripped in the '-' and in the '+' arm (%d [1:] cut(s), %d arm(s) perform one)", nStrip, armsStrip)
 	r.Count("split cases", len(found))
 	r.Min("split cases", 2)
 }
